@@ -291,9 +291,9 @@ def make_arg(form, pts):
     d = pts.shape[0]
     p = pts[:, 0].copy()
     if form == 'list':
-        return [float(x) for x in p], 1
+        return [x.item() for x in p], 1
     if form == 'tuple':
-        return tuple(float(x) for x in p), 1
+        return tuple(x.item() for x in p), 1
     if form == 'arr1':
         return p, 1
     if form == 'row':
@@ -380,13 +380,19 @@ def grid(ctx):
         cls, d, isse = CLASSES[cn]
         model = parse_outcome(mo)
         ctx.count('grid:model:' + (model[1] if model[0] == 'raise' else 'value'))
-        for rep in range(reps):
+        for rep in range(reps + 2):
             mats = rand_pose_mats(rng, cn, L)
             mag = log_uniform(rng, 1e-6, 1e6)
             pts = rng.normal(size=(d, 7)) * mag
+            adt = 'float64'
+            if rep >= reps:
+                # the points as whole numbers in an INTEGER-typed (resp. float32) container: the result is still R p + t in floating point
+                adt = ('int64', 'float32')[rep - reps]
+                pts = rng.integers(-9, 10, size=(d, 7)).astype(adt)
             arg, ncol = make_arg(form, pts)
+            pts = pts.astype(float)
             cell = f'{cn}:len{L}:{form}'
-            rep_in = {'class': cn, 'len': L, 'form': form, 'poses_hex': [hexl(m) for m in mats],
+            rep_in = {'class': cn, 'len': L, 'form': form, 'poses_hex': [hexl(m) for m in mats], 'arg_dtype': adt,
                       'arg_hex': hexl(np.asarray(arg, float)), 'arg_shape': list(np.shape(arg))}
             ctx.case(('grid', cell, rep, tuple(pts[:, 0])))
             ctx.count('grid:cells')
